@@ -181,11 +181,12 @@ def strat_kexinit():
 def strat_probe_lists():
     """Lists over probe-able database names so that size suffixes appear next to the names."""
     def build(t):
-        kex, key, opts = t
-        return {'proto': 2, 'role': 'server', 'opts': opts, 'probes': True, 'lists': [kex, key, ['aes128-ctr'], ['aes128-ctr'], ['hmac-sha2-256'], ['hmac-sha2-256'], ['none'], ['none']]}
+        kex, key, opts, enc, mac, comp = t
+        return {'proto': 2, 'role': 'server', 'opts': opts, 'probes': True, 'lists': [kex, key, enc, enc, mac, mac, comp, comp]}
     kexes = st.lists(st.sampled_from(['diffie-hellman-group-exchange-sha256', 'diffie-hellman-group-exchange-sha1', 'curve25519-sha256', 'diffie-hellman-group14-sha256', 'ecdh-sha2-nistp256', 'gss-gex-sha1-dZuIebMjgUqaxvbF7hDbAw==', 'sntrup761x25519-sha512@openssh.com']), min_size=1, max_size=5)
     keys = st.lists(st.sampled_from(['ssh-rsa', 'rsa-sha2-256', 'rsa-sha2-512', 'ssh-ed25519', 'ssh-rsa-cert-v01@openssh.com', 'ecdsa-sha2-nistp256', 'ssh-dss', 'unknown-key-type']), min_size=1, max_size=6)
-    return st.tuples(kexes, keys, st.sampled_from(RENDERINGS)).map(build)
+    comp = st.lists(st.sampled_from(['none', 'zlib', 'zlib@openssh.com']), min_size=1, max_size=3, unique=True)
+    return st.tuples(kexes, keys, st.sampled_from(RENDERINGS), gens.namelist('enc', min_size=1, max_size=3, empty=False, weird=False), gens.namelist('mac', min_size=1, max_size=3, empty=False, weird=False), comp).map(build)
 
 
 def valid_case(case):
@@ -197,7 +198,7 @@ def valid_case(case):
 def run(ctx):
     n = 2500 if ctx.quick else 60000
     ctx.hyp('strat_kexinit', n, label=1)
-    ctx.hyp('strat_probe_lists', 300 if ctx.quick else 5000, label=2)
+    ctx.hyp('strat_probe_lists', 600 if ctx.quick else 10000, label=2)
     ssh1 = []
     masks = [(c, a) for c in range(128) for a in range(128)]
     if ctx.quick:
